@@ -171,6 +171,7 @@ type FnCtx struct {
 	recInfos map[string]*recInfo
 	recStack []*recInfo
 	Pruned   []string // paths ended at an unsupported statement (contracts marked `partial`)
+	TypingUsed []string // typing facts assumed at entry (contract clause `typing`)
 }
 
 func (c *FnCtx) frame() *inlineFrame { return c.frames[len(c.frames)-1] }
